@@ -19,6 +19,7 @@ package h
 //   stopnode   N                      node dies; survivors are notified after PRNG delays (J>0: fixed delay ms)
 //   rpcmode    N=src I=dst S=ok|fail|blackhole|lossresp
 //   appendfail N=node I=count         the next I appends on that node's log fail
+//   stall      C I=ms                    the client stops reading for that long (broker writes to it block)
 // knobs: nodes, gossip_drop_pct, gossip_dup_pct, gossip_maxdelay_ms, maporder (0 sorted, else permutation seed),
 //        prefill (entries appended to node 0's log before start), auth (0 static,1 file,2 stub)
 
@@ -1244,6 +1245,10 @@ func (w *world) apply(e *event) {
 				}
 			}
 		}
+	case "unstall":
+		if cl := w.clients[e.i]; cl != nil && cl.epoch == e.j {
+			cl.conn.release()
+		}
 	case "pushpullall":
 		w.pushPullAll()
 	case "settlecheck":
@@ -1416,6 +1421,13 @@ func (w *world) applyStep(e *event, s *Step) {
 			cl.conn.cut()
 			cl.downAt = w.nowMs()
 			w.statAdd("fault.link_cut", 1)
+		}
+	case "stall":
+		// the client stops reading for I ms: the broker's writes to it block that long
+		if cl := w.clients[s.C]; cl != nil && cl.downAt < 0 {
+			cl.conn.stall()
+			w.statAdd("fault.client_stalled", 1)
+			w.push(&event{at: w.nowMs() + s.I, kind: "unstall", i: s.C, j: cl.epoch})
 		}
 	case "writefail":
 		// the link will die under the broker's next write to this client
